@@ -59,11 +59,17 @@ def flat(t):
     return t.reshape(-1).tolist()
 
 
+def stable_hash(*parts):
+    """process-independent hash (Python's hash() of str depends on PYTHONHASHSEED)"""
+    import zlib
+    return zlib.crc32(repr(parts).encode()) & 0x7FFFFFFF
+
+
 def rng(seed, *salt):
-    return random.Random(hash((seed,) + tuple(salt)) & 0xFFFFFFFF)
+    return random.Random(stable_hash(seed, *salt))
 
 
 def tgen(seed, *salt):
     g = torch.Generator()
-    g.manual_seed((hash((seed,) + tuple(salt)) & 0x7FFFFFFF))
+    g.manual_seed(stable_hash(seed, *salt))
     return g
